@@ -7,6 +7,7 @@ import hashlib
 import importlib.abc
 import importlib.machinery
 import sys
+import collections
 import types
 
 import z3
@@ -217,6 +218,12 @@ def _proxy_aware(fn):
     return mod.split(".")[0] in _AWARE
 
 
+_MUTABLE = (list, dict, set, bytearray, collections.deque)
+_STORE = ("append", "appendleft", "insert", "add", "setdefault", "__setitem__")
+_CONSUME = ("update", "extend", "extendleft", "__iadd__", "__ior__", "difference_update", "intersection_update",
+            "symmetric_difference_update")
+
+
 def sx_call(f, *a, **kw):
     if a and isinstance(a[0], core.CondTag):
         import fnmatch
@@ -250,6 +257,15 @@ def sx_call(f, *a, **kw):
         if issubclass(f, BaseException):
             # exception constructors: keep the (lazy) symbolic argument; str() concretises later
             return f(*a, **kw)
+    # mutators of built-in containers are never lifted pointwise (that would perform the mutation once per candidate):
+    # element-storing methods keep the proxy, iterable-consuming ones get a concretised (forked) argument
+    if isinstance(f, types.BuiltinMethodType) and isinstance(getattr(f, "__self__", None), _MUTABLE):
+        name = getattr(f, "__name__", "")
+        if name in _STORE:
+            return f(*a, **kw)
+        if name in _CONSUME:
+            return f(*[x.concretize() if isinstance(x, SymChoice) else x for x in a],
+                     **{k: (v.concretize() if isinstance(v, SymChoice) else v) for k, v in kw.items()})
     # C-level callable / str-subclass constructor: lift pointwise.  Tuples/lists holding symbolic
     # members are lifted element-wise (e.g. "%s:%s" % (a, b), "".join([...])).
     flat = []
